@@ -8,7 +8,7 @@ open PS Ty
 
 /-! ### lists used as Python sets -/
 section Lists
-variable {α : Type} [DecidableEq α]
+variable {α : Type} [DecidableEq α] {fx : Bool}
 
 theorem mem_insertNew {x y : α} {l : List α} : y ∈ insertNew x l ↔ y ∈ l ∨ y = x := by
   unfold insertNew
@@ -1058,8 +1058,8 @@ theorem returns_of_not_arrow (t : Ty) (h : ∀ a b, t = .node .arrow [a, b] → 
   · rename_i a b; exact absurd rfl (h a b)
   · rfl
 
-theorem withoutUnit_of_not_arrow (t : Ty) (h : ∀ a b, t = .node .arrow [a, b] → False) : withoutUnit t = t :=
-  withoutUnit.eq_3 t h
+theorem withoutUnit_of_not_arrow (t : Ty) (h : ∀ a b, t = .node .arrow [a, b] → False) : withoutUnit fx t = t :=
+  withoutUnit.eq_3 fx t h
 
 theorem dropUnit_arrow (a b : Ty) :
     dropUnit (.node .arrow [a, b]) = if a = Ty.unit then dropUnit b else Ty.arrow a (dropUnit b) := by
@@ -1070,17 +1070,17 @@ theorem dropUnit_arrow (a b : Ty) :
     simp [arguments, returns, h', h, mkArrows]
 
 theorem withoutUnit_arrow_safe (a b : Ty) (h : returnsUnitFn a = false) :
-    withoutUnit (.node .arrow [a, b]) = if a = Ty.unit then withoutUnit b else Ty.arrow a (withoutUnit b) := by
+    withoutUnit fx (.node .arrow [a, b]) = if a = Ty.unit then withoutUnit fx b else Ty.arrow a (withoutUnit fx b) := by
   by_cases hx : ∃ x y, a = .node .arrow [x, y]
   · obtain ⟨x, y, e⟩ := hx
     subst e
     have : ¬ y = Ty.unit := by simpa [returnsUnitFn] using h
     rw [withoutUnit.eq_1]
     simp [this]
-  · exact withoutUnit.eq_2 a b (fun x y e => hx ⟨x, y, e⟩)
+  · exact withoutUnit.eq_2 fx a b (fun x y e => hx ⟨x, y, e⟩)
 
 /-- outside the region of finding C14-F4, `without_unit_arguments` is the specified removal -/
-theorem withoutUnit_eq_dropUnit (t : Ty) : hasUnitRetArg t = false → withoutUnit t = dropUnit t := by
+theorem withoutUnit_eq_dropUnit (t : Ty) : hasUnitRetArg t = false → withoutUnit fx t = dropUnit t := by
   induction t using arguments.induct with
   | case1 a b ih =>
     intro h
@@ -1092,10 +1092,27 @@ theorem withoutUnit_eq_dropUnit (t : Ty) : hasUnitRetArg t = false → withoutUn
     unfold dropUnit
     simp [arguments_of_not_arrow t h, returns_of_not_arrow t h, mkArrows]
 
+/-- with the repair of C14-F4 (`fx = true`) `without_unit_arguments` is the specified removal on
+    EVERY type -/
+theorem withoutUnit_fixed_eq_dropUnit (t : Ty) : withoutUnit true t = dropUnit t := by
+  induction t using arguments.induct with
+  | case1 a b ih =>
+    rw [dropUnit_arrow, ← ih]
+    by_cases hx : ∃ x y, a = .node .arrow [x, y]
+    · obtain ⟨x, y, e⟩ := hx
+      subst e
+      rw [withoutUnit.eq_1]
+      simp [Ty.arrow]
+    · exact withoutUnit.eq_2 true a b (fun x y e => hx ⟨x, y, e⟩)
+  | case2 t h =>
+    rw [withoutUnit_of_not_arrow t h]
+    unfold dropUnit
+    simp [arguments_of_not_arrow t h, returns_of_not_arrow t h, mkArrows]
+
 /-- `without_unit_arguments` keeps any property of types that holds for an arrow exactly when
     it holds for both sides (no variable, no sum, …) -/
 theorem withoutUnit_preserves (Q : Ty → Prop) (hQ : ∀ a b, Q (.node .arrow [a, b]) ↔ Q a ∧ Q b) (t : Ty) :
-    Q t → Q (withoutUnit t) := by
+    Q t → Q (withoutUnit fx t) := by
   induction t using arguments.induct with
   | case1 a b ih =>
     intro h
@@ -1111,7 +1128,7 @@ theorem withoutUnit_preserves (Q : Ty → Prop) (hQ : ∀ a b, Q (.node .arrow [
       · split
         · exact (hQ _ _).mpr ⟨hxy.1, hb⟩
         · exact (hQ _ _).mpr ⟨hab.1, hb⟩
-    · rw [withoutUnit.eq_2 a b (fun x y e => hx ⟨x, y, e⟩)]
+    · rw [withoutUnit.eq_2 fx a b (fun x y e => hx ⟨x, y, e⟩)]
       split
       · exact hb
       · exact (hQ _ _).mpr ⟨hab.1, hb⟩
@@ -1124,13 +1141,21 @@ theorem hasSum_arrow (a b : Ty) : hasSum (.node .arrow [a, b]) = false ↔ hasSu
   rw [hasSum_node]; simp [isInnerL]
 
 /-- the type after the unit pass -/
-theorem unitStep_snd (p : Prim) : (unitStep p).2 = if hasUnitArg p.2 then withoutUnit p.2 else p.2 := by
+theorem unitStep_snd (p : Prim) : (unitStep fx p).2 = if hasUnitArg p.2 then withoutUnit fx p.2 else p.2 := by
   unfold unitStep; split <;> rfl
 
-theorem unitStep_fst (p : Prim) : (unitStep p).1 = p.1 := by
+theorem unitStep_fst (p : Prim) : (unitStep fx p).1 = p.1 := by
   unfold unitStep; split <;> rfl
 
-theorem unitStep_safe (p : Prim) (h : unitSafe p.2 = true) : unitStep p = (p.1, dropUnit p.2) := by
+/-- with the repair of C14-F4 the unit step is the specified removal for every primitive -/
+theorem unitStep_fixed (p : Prim) : unitStep true p = (p.1, dropUnit p.2) := by
+  unfold unitStep
+  by_cases hu : hasUnitArg p.2 = true
+  · simp [hu, withoutUnit_fixed_eq_dropUnit]
+  · have hu' : hasUnitArg p.2 = false := by simpa using hu
+    simp [hu', dropUnit_of_noUnitArg _ hu']
+
+theorem unitStep_safe (p : Prim) (h : unitSafe p.2 = true) : unitStep fx p = (p.1, dropUnit p.2) := by
   unfold unitStep
   by_cases hu : hasUnitArg p.2 = true
   · have : hasUnitRetArg p.2 = false := by simpa [unitSafe, hu] using h
@@ -1235,7 +1260,7 @@ theorem mem_sumPass (L : List Prim) (hL : ∀ x ∈ L, wf x.2 = true) (y : Prim)
     subst e
     exact manyVersions_false_of_noSum _ (versions_noSum p.2 v hv)
 
-theorem mem_unitPass (L : List Prim) (r : Prim) : r ∈ unitPass L ↔ ∃ y ∈ L, r = unitStep y := by
+theorem mem_unitPass (L : List Prim) (r : Prim) : r ∈ unitPass fx L ↔ ∃ y ∈ L, r = unitStep fx y := by
   unfold unitPass
   rw [mem_dedup, List.mem_map]
   constructor
@@ -1266,7 +1291,7 @@ theorem mem_preUnit (P : List Prim) (hP : ∀ p ∈ P, wf p.2 = true) (bound : N
     exact instType_wf P hP bound p.2 t (hP p hp) ht
 
 theorem mem_instantiate (P : List Prim) (bound : Nat) (r : Prim) :
-    r ∈ instantiate P bound ↔ ∃ y ∈ preUnit P bound, r = unitStep y := by
+    r ∈ instantiate fx P bound ↔ ∃ y ∈ preUnit P bound, r = unitStep fx y := by
   unfold instantiate preUnit
   exact mem_unitPass _ r
 
@@ -1292,11 +1317,11 @@ theorem mem_preUnit_spec (P : List Prim) (hP : ∀ p ∈ P, wf p.2 = true) (boun
     left unchanged by an instantiation -/
 theorem instantiate_fixed (R : List Prim) (bound : Nat) (hnd : R.Nodup)
     (h : ∀ r ∈ R, polys r.2 = [] ∧ hasSum r.2 = false ∧ hasUnitArg r.2 = false) :
-    instantiate R bound = R := by
+    instantiate fx R bound = R := by
   unfold instantiate varPass sumPass unitPass
   rw [expandPass_id _ _ R (fun r hr => (hasVars_false_iff r).mpr (h r hr).1)]
   rw [expandPass_id _ _ R (fun r hr => manyVersions_false_of_noSum r (h r hr).2.1)]
-  have : R.map unitStep = R := by
+  have : R.map (unitStep fx) = R := by
     conv => rhs; rw [← List.map_id R]
     apply List.map_congr_left
     intro r hr
